@@ -404,6 +404,17 @@ where
         let data_len = storage.value_size(storage_index)?;
         let capacity = data_len / T::storage_len();
 
+        if len
+            .checked_mul(T::storage_len())
+            .and_then(|size| size.checked_add(u64::serialized_size_static()))
+            .is_none_or(|size| data_len < size)
+        {
+            return Err(DbError::collections(
+                DbErrorType::OutOfBounds,
+                format!("Vector length ({len}) exceeds its storage size ({data_len})"),
+            ));
+        }
+
         Ok(DbVec {
             phantom_data: PhantomData,
             data: DbVecData {
